@@ -429,17 +429,24 @@ func check(prop string, args []string) int {
 			// with several build variants the workers are split among them; each executes
 			// only the plans generated for its variant
 			variant := variants[w%len(variants)]
-			from := w
+			// this worker's rank among the workers of its variant, and their number: together
+			// they cover every run index exactly once per variant
+			rank, cnt := 0, 0
+			for x := 0; x < workers; x++ {
+				if variants[x%len(variants)] == variant {
+					if x < w {
+						rank++
+					}
+					cnt++
+				}
+			}
+			from := rank
 			for time.Now().Before(deadline) && from < cfg.maxRuns {
-				j := job{Property: prop, Seed: seed, Tier: *tier, From: from, To: cfg.maxRuns, Stride: workers,
+				j := job{Property: prop, Seed: seed, Tier: *tier, From: from, To: cfg.maxRuns, Stride: cnt,
 					Out: filepath.Join(dir, fmt.Sprintf("out-%d.jsonl", w)), Current: filepath.Join(dir, fmt.Sprintf("cur-%d.json", w)),
 					Deadline: deadline.Unix()}
-				if len(variants) > 1 {
+				if distinct(variants) > 1 {
 					j.Build = variant
-					j.From, j.Stride = from/len(variants), workers/len(variants)
-					if j.Stride < 1 {
-						j.Stride = 1
-					}
 				}
 				bin := bins[variant]
 				env := []string{}
@@ -449,7 +456,7 @@ func check(prop string, args []string) int {
 				res := runWorker(bin, j, 1, env...)
 				mu.Lock()
 				all = append(all, res.recs...)
-				last := from - workers
+				last := from - cnt
 				for _, r := range res.recs {
 					if r.Run > last {
 						last = r.Run
@@ -477,7 +484,7 @@ func check(prop string, args []string) int {
 				}
 				// died: skip the fatal run and carry on. Finished early without dying: the
 				// worker recycled itself (memory), carry on from the next index
-				from = last + workers
+				from = last + cnt
 			}
 		}(w)
 	}
@@ -645,12 +652,36 @@ func sanitize(s string) string {
 	return out
 }
 
+// variantsOf lists the worker builds a property's plans need; an entry repeated gives
+// that build a larger share of the workers.
 func variantsOf(prop, tier string) []string {
 	switch prop {
 	case "C15":
 		return []string{"race", "yield"}
+	case "C13":
+		return []string{"plain", "plain", "plain", "yield"}
 	}
 	return []string{"plain"}
+}
+
+func dedupe(xs []string) []string {
+	var out []string
+	m := map[string]bool{}
+	for _, x := range xs {
+		if !m[x] {
+			m[x] = true
+			out = append(out, x)
+		}
+	}
+	return out
+}
+
+func distinct(xs []string) int {
+	m := map[string]bool{}
+	for _, x := range xs {
+		m[x] = true
+	}
+	return len(m)
 }
 
 // ---- known findings -------------------------------------------------------------------
@@ -854,7 +885,7 @@ func writeEvidence(prop, tier string, seed uint64, all []runRecord, deaths, nVio
 			"worker_deaths":           deaths,
 			"known_findings_reported": nKnown,
 			"workers":                 workers,
-			"builds":                  variants,
+			"builds":                  dedupe(variants),
 			"real_components":         meta.realParts,
 			"stubbed_components":      []string{"listener", "connections (byte streams, deadlines, close/reset)", "clock (testing/synctest fake clock)", "logger backend", "accounting sink", "bcrypt keychain backend", "config source/file watcher", "peers (independent RFC 8907 model clients/servers)"},
 		},
